@@ -190,9 +190,8 @@ func (r *Rig) serve(conn net.Conn) {
 		atomic.AddInt64(&r.Unknown, 1)
 		return
 	}
-	if atomic.AddInt32(&st.accepted, 1) > 1 {
-		st.fail("session %016x surfaced as more than one accepted connection", label)
-	}
+	// the remote address is recorded BEFORE the connection is counted as accepted: the client side
+	// of the rig reads st.remote as soon as it sees accepted > 0
 	ra := "<nil>"
 	if a := conn.RemoteAddr(); a != nil {
 		ra = a.String()
@@ -200,6 +199,9 @@ func (r *Rig) serve(conn net.Conn) {
 	r.mu.Lock()
 	st.remote = append(st.remote, ra)
 	r.mu.Unlock()
+	if atomic.AddInt32(&st.accepted, 1) > 1 {
+		st.fail("session %016x surfaced as more than one accepted connection", label)
+	}
 	var wg sync.WaitGroup
 	wg.Add(2)
 	go func() { // upstream: verify
